@@ -287,7 +287,7 @@ def match_finding(findings, prop, sig):
 
 
 def write_replay(prop, sig, case, detail, seed, tier):
-    d = os.path.join(ROOT, "replays", prop)
+    d = os.path.join(os.environ.get("VERIF_OUT", ROOT), "replays", prop)
     os.makedirs(d, exist_ok=True)
     path = os.path.join(d, chash([sig, case]) + ".json")
     with open(path, "w") as f:
@@ -304,7 +304,9 @@ def write_evidence(prop, mod, tier, seed, cov, wall, violations, extra=None):
           "wall_s": round(wall, 2), "violations": violations}
     if extra:
         ev.update(extra)
-    d = os.path.join(ROOT, "evidence")
+    # (VERIF_OUT is only set by the sensitivity scripts, which run against a
+    # scratch copy of the library and must not touch the committed evidence)
+    d = os.path.join(os.environ.get("VERIF_OUT", ROOT), "evidence")
     os.makedirs(d, exist_ok=True)
     with open(os.path.join(d, prop + ".json"), "w") as f:
         json.dump(ev, f, indent=1, default=_dflt)
